@@ -559,7 +559,42 @@ var samplerWithFields = map[string]fieldSpec{"Core": {"core", "opt:Core"}, "coun
 var lazyFields = map[string]fieldSpec{"core": {"core", "opt:Core"}, "originalCore": {"orig", "opt:Core"}, "Once": {"done", "bool"}, "fields": {"fields", "[]Field"}}
 var lazyInit = map[string]shim{"recv.initOnce": {kind: "fun", f: "lazyWithCore_initOnce"}}
 
+// ---- round 4, C14: sugar.go getMessage / getMessageln and the WHOLE of log / logln (TransLogger translates only their
+// guards).  fmt.Sprint / Sprintf / Sprintln and the `.(string)` assertion are parameters; the base logger's Check, the
+// sweetening of the context (proved about the source in TransSweeten) and ce.Write are recorded intrinsics.
+func sugarMsgFunc(recv, name string, extra map[string]shim) transFunc {
+	lean := name
+	if recv != "" {
+		lean = "Sugar_" + name
+	}
+	return transFunc{file: "sugar.go", recv: recv, name: name, lean: lean,
+		fields: map[string]fieldSpec{"#ev": {"ev", "[]Event"}, "base": {"base", "Logger"}},
+		types:  map[string]string{"interface{}": "Any", "zapcore.Level": "i8"},
+		consts: map[string]string{"DPanicLevel": "i8:3"},
+		calls: merge(map[string]shim{
+			"fmt.Sprintf":  {kind: "ext", f: "fmt.Sprintf", res: []string{"string"}},
+			"fmt.Sprint":   {kind: "ext", f: "fmt.Sprint", res: []string{"string"}},
+			"fmt.Sprintln": {kind: "ext", f: "fmt.Sprintln", res: []string{"string"}},
+			".(string)":    {kind: "extstmt", f: "assert.string", res: []string{"string", "bool"}},
+		}, extra)}
+}
+
+var sugarLogCalls = map[string]shim{
+	"recv.base.Core().Enabled": {kind: "ext", f: "Core.Enabled", res: []string{"bool"}},
+	"getMessage":               {kind: "fun", f: "getMessage", res: []string{"string"}},
+	"getMessageln":             {kind: "fun", f: "getMessageln", res: []string{"string"}},
+	"Logger.Check":             {kind: "extstmt", f: "Logger.Check", res: []string{"opt:CE"}, trace: "#ev"},
+	"recv.sweetenFields":       {kind: "extstmt", f: "Sugar.sweetenFields", res: []string{"[]Field"}, trace: "#ev"},
+	"opt:CE.Write":             {kind: "extstmt", f: "CE.Write", trace: "#ev"},
+}
+
 var transSpecs = []transSpec{
+	{table: "TransMessage", funcs: []transFunc{
+		sugarMsgFunc("", "getMessage", nil),
+		sugarMsgFunc("", "getMessageln", nil),
+		sugarMsgFunc("SugaredLogger", "log", sugarLogCalls),
+		sugarMsgFunc("SugaredLogger", "logln", sugarLogCalls),
+	}},
 	{table: "TransDerive", funcs: []transFunc{
 		loggerFunc("clone", nil),
 		loggerFunc("Named", map[string]shim{"recv.clone": {kind: "objectfun", f: "Logger_clone"}}),
